@@ -323,6 +323,8 @@ class CallMixin:
             for i in range(len(t.elems)):
                 self.assume_wellformed(st, sym.tup_get(v, i))
             return
+        if isinstance(t, sym.TBoxDict):
+            return  # a boxed dict is not an object of a class: nothing to assume
         if isinstance(t, TRef):
             st.assume_raw(z3.And(v.z >= 0, v.z < st.alloc))
             subs = self.subclass_names(t.cls)
@@ -345,6 +347,7 @@ class CallMixin:
 
     # ------------------------------------------------------------------
     def getattr(self, v: SV, attr: str, st: State, node):
+        v = self.unbox(v, st)
         t = v.t
         if isinstance(t, TOpt):
             self.partial(st, z3.Not(sym.opt_is_none(v)), "AttributeError", node)
